@@ -55,7 +55,7 @@ Example C04_nonvacuous :
 Proof. vm_compute. repeat split. Qed.
 
 From Coq Require Import String.
-From HV Require Import lib.Bytes lib.Obs lib.Monad model.Asgi model.AsgiSpec model.GuardTypes model.HttpStream model.WsStream model.LibH11 model.H11Proto gen.Guards_gen proofs.H11_proofs.
+From HV Require Import lib.Bytes lib.Obs lib.Monad model.Asgi model.AsgiSpec model.GuardTypes model.HttpStream model.WsStream model.LibH11 model.H11Proto gen.Guards_gen proofs.H11_proofs proofs.Serial_proofs proofs.Final_proofs.
 Open Scope string_scope.
 (* ---- HTTP/1: the connection handler terminates (finding F57).  The reader task waits inside the protocol while a
    response is produced (h11 is PAUSED).  When the connection is then not reused - the worker is shutting down, a side
@@ -79,6 +79,20 @@ Proof. exact closed_reader_leaves. Qed.
 Theorem C04_closed_connection_ignores_input : forall cfg stream_headers ws_token ws_ext ws_sends evs p,
   p_closed p = true -> proto_step cfg stream_headers ws_token ws_ext ws_sends (IData evs) p = (p, [], Ok tt).
 Proof. exact closed_ignores_input. Qed.
+(* Closed is final: along every run from a closed protocol - reads, application sends re-entering the protocol, failing
+   writes, Closed events, termination, in any order - every state reached is closed (unless the event oracle breaks the
+   parser's contract, which the correspondence check observes the real h11 never to do). *)
+Theorem C04_closed_is_final : forall cfg stream_headers ws_token ws_ext ws_sends p inputs,
+  p_closed p = true ->
+  In (ONote "h11-contract-violated") (List.concat (map fst (proto_run cfg stream_headers ws_token ws_ext ws_sends p inputs))) \/
+  Forall (fun q => p_closed q = true) (proto_states cfg stream_headers ws_token ws_ext ws_sends p inputs).
+Proof. exact closed_is_final. Qed.
+Print Assumptions C04_closed_is_final.
+Theorem C04_closed_connection_stays_quiet : forall cfg stream_headers ws_token ws_ext ws_sends evss p,
+  p_closed p = true ->
+  proto_run cfg stream_headers ws_token ws_ext ws_sends p (map IData evss) = map (fun _ => ([], Ok tt)) evss.
+Proof. exact closed_quiet_run. Qed.
+Print Assumptions C04_closed_connection_stays_quiet.
 Print Assumptions C04_connection_not_reused_is_closed.
 Print Assumptions C04_closed_connection_reader_leaves.
 Print Assumptions C04_closed_connection_ignores_input.
